@@ -54,18 +54,22 @@ def main():
     ap.add_argument("--skip-baseline", action="store_true")
     ap.add_argument("--tier", default="quick")
     ap.add_argument("--seed", default="0")
+    ap.add_argument("--phase", default="both", choices=["both", "wt", "repo"])
     a = ap.parse_args()
     patch = os.path.abspath(a.patch)
     res = {"patch": patch, "steps": {}}
     ok = True
-    rc, out, _ = sh(["git", "-C", REPO, "status", "--porcelain", "--untracked-files=no"])
-    if out.strip():
-        print("refusing: /repo has uncommitted changes:\n" + out)
-        return 2
+    if a.phase != "wt":
+        rc, out, _ = sh(["git", "-C", REPO, "status", "--porcelain", "--untracked-files=no"])
+        if out.strip():
+            print("refusing: /repo has uncommitted changes:\n" + out)
+            return 2
     # ---- 1. scratch worktree
     wt = tempfile.mkdtemp(prefix="ev-", dir="/tmp")
     os.rmdir(wt)
     try:
+        if a.phase == "repo":
+            raise StopIteration
         sh(["git", "-C", REPO, "worktree", "add", "-q", "--detach", wt, "HEAD"])
         rc, o, e = sh(["git", "-C", wt, "apply", patch])
         res["steps"]["applies"] = rc == 0
@@ -90,9 +94,15 @@ def main():
                 res["steps"]["baseline_missing"] = missing[:10]
                 res["steps"]["baseline_s"] = round(time.time() - t0)
                 ok &= not missing
+    except StopIteration:
+        pass
     finally:
         sh(["git", "-C", REPO, "worktree", "remove", "--force", wt])
         shutil.rmtree(wt, ignore_errors=True)
+    if a.phase == "wt":
+        res["valid_seeded_change"] = bool(ok)
+        print(json.dumps(res, indent=1))
+        return 0 if ok else 1
     # ---- 2. the checks, against /repo itself
     man = json.load(open(os.path.join(VERIF, "MANIFEST.json")))
     cmds = {c["property_id"]: c["quick_cmd" if a.tier == "quick" else "thorough_cmd"] for c in man["checks"]}
